@@ -2,7 +2,8 @@
 // scenario, places them (shared where the scenario says so) into real Pipeline objects with a probe
 // after every handler, sends the messages through Pipeline::process and prints, per message, the
 // handler calls that happened: verdict, and for a SeqNumberAttr the attribute value right after it.
-// Line protocol: see ocaml/drv_filters.ml.  mode "level": "<min> <type>" -> verdict of LevelFilter(min).
+// A message may name the harness thread (0 = main, 1..3 = persistent workers) that constructs and sends it;
+// execution stays sequential.  Line protocol: see ocaml/drv_filters.ml.  mode "level": "<min> <type>" -> verdict of LevelFilter(min).
 #ifdef VERIF_HEADER_ONLY
 #include "qtlogger.h"
 #else
@@ -12,6 +13,10 @@
 #include <sstream>
 #include <string>
 #include <vector>
+#include <thread>
+#include <mutex>
+#include <condition_variable>
+#include <functional>
 using namespace QtLogger;
 
 static QtMsgType mt(int t) { return static_cast<QtMsgType>(t); }
@@ -39,6 +44,32 @@ struct Probe : Handler {
         return true;
     }
 };
+// A persistent worker thread (stable thread id): run(f) hands f over and waits until it has finished,
+// so a scenario is executed strictly sequentially whatever thread each message is logged from.
+class Worker {
+    std::thread th; std::mutex mu; std::condition_variable cv; std::function<void()> job; bool busy = false, quit = false;
+public:
+    Worker() : th([this] {
+        std::unique_lock<std::mutex> lk(mu);
+        for (;;) {
+            cv.wait(lk, [this] { return busy || quit; });
+            if (quit) return;
+            job(); busy = false; cv.notify_all();
+        }
+    }) {}
+    void run(std::function<void()> f)
+    {
+        std::unique_lock<std::mutex> lk(mu);
+        job = std::move(f); busy = true; cv.notify_all();
+        cv.wait(lk, [this] { return !busy; });
+    }
+    ~Worker() { { std::lock_guard<std::mutex> lk(mu); quit = true; } cv.notify_all(); th.join(); }
+};
+static const int NWORKERS = 3;
+static void onThread(Worker *pool, int tag, const std::function<void()> &f)
+{
+    if (tag <= 0) f(); else pool[(tag - 1) % NWORKERS].run(f);
+}
 static QString unitsOf(const std::string &h)
 {
     if (h == "-") return QString();
@@ -61,6 +92,7 @@ static std::vector<std::string> split(const std::string &s, char c)
 int main(int argc, char **argv)
 {
     std::string mode = argc > 1 ? argv[1] : "model";
+    Worker pool[NWORKERS];
     std::string line;
     while (std::getline(std::cin, line)) {
         if (mode == "level") {
@@ -106,10 +138,15 @@ int main(int argc, char **argv)
                 auto f = split(body, ':');
                 size_t p = std::stoul(f[0]);
                 QString text = unitsOf(f[3]);
-                LogMessage m(mt(std::stoi(f[1])), QMessageLogContext("f.cpp", std::stoi(f[2]), "fn", "cat"), text);
+                int tag = f.size() > 4 && !f[4].empty() ? std::stoi(f[4]) : 0;
                 rec.calls.clear();
                 size_t n = 0;
-                if (p < pipes.size()) { pipes[p]->process(m); n = plen[p]; }
+                // the message is constructed (LogMessage samples the thread id there) and processed on the
+                // harness thread the scenario names; the call returns only when that has finished
+                onThread(pool, tag, [&] {
+                    LogMessage m(mt(std::stoi(f[1])), QMessageLogContext("f.cpp", std::stoi(f[2]), "fn", "cat"), text);
+                    if (p < pipes.size()) { pipes[p]->process(m); n = plen[p]; }
+                });
                 for (size_t i = 0; i < rec.calls.size(); i++) out << (i ? "," : "") << rec.calls[i];
                 if (rec.calls.size() < n) out << (rec.calls.empty() ? "" : ",") << "0"; // the handler after the last probe reached said no
                 out << ";";
